@@ -5,9 +5,15 @@
 #include <queue>
 #include "common_types.h"
 
+#ifdef TEAKRA_VERIF
+struct TeakraVerifAccess; // verification hook: read/seed private state
+#endif
 namespace Teakra {
 
 class Ahbm {
+#ifdef TEAKRA_VERIF
+    friend struct ::TeakraVerifAccess;
+#endif
 public:
     enum class UnitSize : u16 {
         U8 = 0,
